@@ -305,11 +305,18 @@ func TestEngineGeth(t *testing.T) {
 			switch k := r.Intn(100); {
 			case mi == 0 && epoch == 1: // directed witness of finding F11: BALANCE(0x0) is charged as warm
 				code := asm("PUSH1", 0, "BALANCE", "POP", "STOP")
-				a := addrs[0]
+				// at an address of its own: the universe's contracts keep their programs for the rest of the epoch
+				a := common.BytesToAddress(crypto.Keccak256([]byte(fmt.Sprintf("geth-%d-probe", seed)))[12:])
+				{
+					acc := ak.NewAccountWithAddress(ctx, a.Bytes())
+					_ = acc.SetSequence(1)
+					ak.SetAccount(ctx, acc)
+				}
 				ch := crypto.Keccak256Hash(code)
 				ek.SetCode(ctx, ch.Bytes(), code)
 				ek.SetCodeHash(ctx, a, ch)
 				st2, _ := gethstate.New(gw.root, gw.db, nil)
+				st2.SetNonce(a, 1)
 				st2.SetCode(a, code)
 				gw.root, _ = st2.Commit(true)
 				to, kind = &a, "balance-of-zero-address"
